@@ -91,8 +91,11 @@ Definition all_forms : list form :=
   flat_map (fun k => flat_map (fun a => map (fun b => FDec a b k) (zrange 0 9)) (zrange 1 9) ++
                      map (fun x => FInt x k) (zrange 10 999)) (zrange 1 6).
 
+(* the forms paired with their values, computed once *)
+Definition all_valued : list (Z * form) := map (fun f => (form_value f, f)) all_forms.
+
 Definition best_form (n : Z) : form :=
-  fold_left (fun best f => if (form_value f <=? n) && (form_value best <? form_value f) then f else best)
-            all_forms (FSmall 0).
+  snd (fold_left (fun best vf => if (fst vf <=? n) && (fst best <? fst vf) then vf else best)
+                 all_valued (0, FSmall 0)).
 
 Definition hs_format_spec (n : Z) : list N := render (best_form n).
